@@ -173,7 +173,8 @@ func (c *ClusterNodes) isChanged(allNodes []*ClusterNode) (changed bool) {
 		if n.Role == Master {
 			serverNames = append(serverNames, fmt.Sprintf("%s#%d#%v", n.Addr, n.Role, n.Slots))
 		} else {
-			serverNames = append(serverNames, fmt.Sprintf("%s#%d", n.Addr, n.Role))
+			// which master a slave replicates decides whose reads it may serve
+			serverNames = append(serverNames, fmt.Sprintf("%s#%d#%s", n.Addr, n.Role, n.MasterId))
 		}
 	}
 	sort.Strings(serverNames)
